@@ -40,7 +40,8 @@ def finalize(agg, tier):
     out = []
     for n in ("ctr_objects", "ctr_blocks_recovered", "ctr_overflow_raised", "ctr_limit_reached_exactly", "ctr_passed_through_zero",
               "chacha_blocks_checked", "chacha_limit_exceptions", "chacha_seek_beyond_refused", "ccm_too_long_refused", "ccm_at_limit_ok",
-              "hpke_nonces_captured", "hpke_exhaustion_refused"):
+              "hpke_nonces_captured", "hpke_exhaustion_refused", "hpke_history_calls", "hpke_refused_calls_in_history",
+              "hpke_receiver_steps"):
         if not c.get(n):
             out.append("deciding counter %s is zero" % n)
     return out
@@ -531,6 +532,7 @@ def w_hpke(spec, ctx):
     entropy.install()
     from Crypto.Protocol import HPKE
     from Crypto.PublicKey import ECC
+    from vf.ctx import outcome
     rng = ctx.rng
     captured = []
     real_aes_new = HPKE.AES.new
@@ -605,6 +607,55 @@ def w_hpke(spec, ctx):
                     ctx.check(False, "hpke:sealed-after-exhaustion", "seal() accepted after a refused exhaustion", {"curve": curve})
                 except Exception:      # noqa
                     ctx.ev()
+            # hostile history: seal() calls of ONE sender context interleaved with calls that are refused (unseal on a
+            # sender, too-short input, wrong argument types); whatever is refused must not move the sequence number backwards
+            s2 = HPKE.new(receiver_key=rk.public_key(), aead_id=aead, info=b"c11h")
+            r2 = HPKE.new(receiver_key=rk, aead_id=aead, enc=s2.enc, info=b"c11h")
+            hist, sealed, failed_seal = [], [], False
+            for j in range(rng.choice([6, 12, 30])):
+                act = rng.choice(["seal", "seal", "seal", "unseal-on-sender", "unseal-on-sender", "unseal-short-on-sender",
+                                  "seal-bad-aad", "seal-bad-plaintext"]) if j else "seal"
+                del captured[:]
+                if act == "seal":
+                    res = outcome(s2.seal, b"h%d" % j, b"a")
+                elif act == "unseal-on-sender":
+                    res = outcome(s2.unseal, rng.choice(cts) if rng.random() < 0.5 else rng.randbytes(rng.choice([16, 17, 40])), b"a")
+                elif act == "unseal-short-on-sender":
+                    res = outcome(s2.unseal, rng.randbytes(rng.randrange(0, 16)), b"a")
+                elif act == "seal-bad-aad":
+                    res = outcome(s2.seal, b"h%d" % j, rng.choice([12345, "text", 1.5]))
+                else:
+                    res = outcome(s2.seal, rng.choice([12345, "text", None]), b"a")
+                hist.append((act, res[0] if res[0] == "ok" else type(res[1]).__name__))
+                ctx.count("hpke_history_calls")
+                if act.startswith("seal") and res[0] == "ok":
+                    if captured:
+                        sealed.append((captured[-1], res[1], b"h%d" % j if act == "seal" else None))
+                elif act.startswith("seal"):
+                    failed_seal = True
+                elif res[0] == "ok":
+                    ctx.check(False, "hpke:sender-context-unsealed", "unseal() on a sender context returned instead of raising",
+                              lambda: {"curve": curve, "history": hist})
+                else:
+                    ctx.count("hpke_refused_calls_in_history")
+            nn = [n for n, _, _ in sealed]
+            ctx.case(("hpke-history", curve, int(aead), tuple(sorted(set(a for a, _ in hist)))))
+            ctx.check(len(set(nn)) == len(nn), "hpke:nonce-reused",
+                      "two seal() calls of one context used the same AEAD nonce (after a refused call in between)",
+                      lambda: {"curve": curve, "aead": int(aead), "history": hist, "nonces": [n.hex() for n in nn]})
+            ctx.count("hpke_nonces_captured", len(nn))
+            if not failed_seal:
+                # the receiver is shown a tampered copy before each message: it must refuse it and stay in step
+                for n_, ct_, pt_ in sealed:
+                    bad = bytes([ct_[0] ^ 1]) + ct_[1:]
+                    rb = outcome(r2.unseal, bad, b"a")
+                    rs = outcome(r2.seal, b"x", b"a")
+                    rg = outcome(r2.unseal, ct_, b"a")
+                    ctx.check(rb[0] == "exc" and rs[0] == "exc" and rg == ("ok", pt_), "hpke:receiver-out-of-step-after-refused-call",
+                              "after a refused unseal()/seal() the receiver context no longer opens the next authentic message",
+                              lambda: {"curve": curve, "aead": int(aead), "tampered": repr(rb[1])[:80], "seal_on_receiver": repr(rs[1])[:80],
+                                       "authentic": repr(rg[1])[:80]})
+                    ctx.count("hpke_receiver_steps")
             if ctx.want_sample():
                 ctx.sample({"hpke": curve, "aead": int(aead), "messages": nmsg, "first_nonces": [n.hex() for n in sn[:3]]})
     finally:
